@@ -83,6 +83,13 @@ def gen(tier, seed):
     # four-digit sizes: the (3i4) header fields abut
     add(dataset(rng, 1000, 1, 0, 0, False, False, shift=1), wide=True)
     add(dataset(rng, 2, 1000, 0, 0, False, False, shift=2), wide=True)
+    # ... also when the word before the three integers is itself a number (a time given as a digit string): the fixed-width fields decide,
+    # not the whitespace-separated words (seeded change C17_header_split_first)
+    add(dataset(rng, 1000, 3, 0, 0, False, False, shift=3), wide=True, time="  250")
+    add(dataset(rng, 3, 1000, 2, 0, False, False, shift=4), wide=True, shot=4321, time="  250")
+    add(dataset(rng, 1025, 2, 0, 3, True, False, shift=5), wide=True, label="EFIT", time="t = 1500")
+    add(dataset(rng, 12, 7, 1, 1, False, True, shift=6), time="  250")
+    add(dataset(rng, 7, 12, 1, 1, False, True, shift=7), shot=77, time="99")
     return sets
 
 
